@@ -55,6 +55,7 @@ func checkC08(c *Ctx, r *Report) {
 	windowGuardsAgree(c, r, "C08.R1.window-guards")
 	lenSearchKey(c, r, "C08.R2.len-search-key", "Len() is smaller than the packed message for names spelled in two letter cases")
 	c03NameBuffers(c, r, "C08.R3.name-buffers")
+	round12(c, r, "C08")
 }
 
 func c08Header(c *Ctx, r *Report) {
